@@ -1,6 +1,6 @@
 (* Entry points for the extracted OCaml driver. *)
 From MLPE Require Export Engine.Run Spec.Fragments.
-From MLPE Require Pure.FsStore Pure.Validate.
+From MLPE Require Pure.FsStore Pure.Validate Pure.Viewer.
 
 Record result := {
   r_main : option (tstate frame);
@@ -52,3 +52,12 @@ Definition fsstore_ext (pickle : bool) : list nat := FsStore.ext (if pickle then
 Definition validate_case (ds : decls) (flags : list Validate.defects) : option Validate.berr :=
   Validate.validate ds (fun i => match nth_opt flags i with Some d => d | None => Validate.no_defects end)
                     0 (Nat.pred (length ds)).
+
+Definition viewer_case (ds : decls) (infos : list Viewer.ninfo) : Viewer.vconfig :=
+  let B := built_of ds in
+  Viewer.generate (b_graph B) (b_map B)
+                  (fun i => match nth_opt infos i with
+                            | Some d => d
+                            | None => {| Viewer.ni_name := 0; Viewer.ni_verbose := 0; Viewer.ni_type := None; Viewer.ni_doc := None;
+                                         Viewer.ni_generic := false |}
+                            end).
